@@ -14,7 +14,7 @@ import Tmcg.Model.Dkg
         OUT = genret|signret|c|s, or `-` (died in Generate), or genret|- (died in Sign), or genret|* (DEV2 ≠ `-`)
   STRONG: the values of the party's `tmcg_mpz_srandomm(·, q)` draws, WEAK: its protocol-level
   `tmcg_mpz_wrandom_ui() % 2` draws, DEV: its deviation script (`-` = honest; items `S`, `Z,k`,
-  `O,j,k,d`, `I,j,k,d`, `A,g,k,d`, `D,g,k`, `N,g,k,v` joined by `;`).
+  `O,j,k,d`, `I,j,k,d`, `A,g,k,d`, `M,g,k,m,p`, `D,g,k`, `N,g,k,v` joined by `;`).
 -/
 namespace Tmcg.DriverDkg
 open Tmcg Tmcg.Driver
@@ -32,6 +32,9 @@ def pDevItem (d : Dkg.Dev) (item : String) : Option Dkg.Dev :=
   | ["A", g, k, v] => do
     let g ← pNat g; let k ← pNat k; let v ← pInt v
     some { d with ba := d.ba ++ [(g, k, v)] }
+  | ["M", g, k, m, p] => do
+    let g ← pNat g; let k ← pNat k; let m ← pInt m; let p ← pInt p
+    some { d with bm := d.bm ++ [(g, k, m, p)] }
   | ["D", g, k] => do let g ← pNat g; let k ← pNat k; some { d with bd := d.bd ++ [(g, k)] }
   | ["N", g, k, v] => do
     let g ← pNat g; let k ← pNat k; let v ← pInt v
